@@ -127,6 +127,22 @@ func dropInstance(s *Snapshot, name string) {
 	s.Order = order
 }
 
+func dropPOSTs(s *Snapshot) {
+	var order []string
+	for _, k := range s.Order {
+		if strings.HasPrefix(k, "POST ") {
+			delete(s.Entries, k)
+			continue
+		}
+		order = append(order, k)
+	}
+	s.Order = order
+}
+
+// the gate probes are deliberately bare / malformed requests: a recovered panic on one of them is
+// C20's business (hostile input), not a C02 verdict
+func (C02) AllowsPanic500(sc *drv.Scenario) bool { return true }
+
 func (e *c2Exec) recordCommitted(v int) error {
 	s, err := e.snapVersion(v)
 	if err != nil {
@@ -148,6 +164,11 @@ func (e *c2Exec) verify(after string) (*drv.Violation, error) {
 		}
 		if !e.sacr {
 			dropInstance(got, "kvx")
+		}
+		if e.mode == "readonly" {
+			// a read-only server refuses every POST, including the read-only query POSTs
+			dropPOSTs(got)
+			dropPOSTs(want)
 		}
 		if d := want.Diff(got); d != "" {
 			return &drv.Violation{Prop: "C02", Oracle: "committed-snapshot-stable", Sig: "committed version changed (" + want.DiffClass(got) + ") after " + after,
@@ -401,9 +422,17 @@ func (c C02) gate(e *c2Exec, op drv.Op) (*drv.Violation, error) {
 			// the documented exceptions: nothing to demand beyond "no crash"
 			if ok2xx {
 				w.Stats.Probe("exception-mode-write-accepted")
-				// the committed version legitimately changed: refresh what we compare against
-				if err := e.recordCommitted(cv); err != nil {
-					return nil, err
+				// the committed version (and what its descendants inherit) legitimately changed:
+				// refresh everything we compare against
+				for _, v2 := range committed {
+					if err := e.recordCommitted(v2); err != nil {
+						return nil, err
+					}
+				}
+				if !e.sacr {
+					for _, s2 := range e.snaps {
+						dropInstance(s2, "kvx")
+					}
 				}
 			}
 			continue
